@@ -320,6 +320,7 @@ func (m *MemSSA) transfer(in ssa.Instruction, cur map[string]*MemVer) {
 		pure := isPureCallee(com)
 		// repository callees: only what their effect summary says they write
 		var effKeys []string
+		var effElem []types.Type
 		useEff := false
 		if cal := com.StaticCallee(); cal != nil && inRepo(cal) && cal.Blocks != nil && globalEffects != nil {
 			useEff = true
@@ -345,6 +346,21 @@ func (m *MemSSA) transfer(in ssa.Instruction, cur map[string]*MemVer) {
 						continue
 					} else {
 						k = "?"
+						// a store into the elements of a slice argument can only change memory of the element type
+						if strings.HasPrefix(tail, "[") && !strings.ContainsAny(tail[1:], ".*{") {
+							if st, ok := e.In.(*ssa.Store); ok {
+								effElem = append(effElem, st.Val.Type())
+								continue
+							}
+							if cp, ok := e.In.(*ssa.Call); ok {
+								if b, isB := cp.Call.Value.(*ssa.Builtin); isB && b.Name() == "copy" {
+									if sl, isSl := cp.Call.Args[0].Type().Underlying().(*types.Slice); isSl {
+										effElem = append(effElem, sl.Elem())
+										continue
+									}
+								}
+							}
+						}
 					}
 				}
 				effKeys = append(effKeys, k)
@@ -386,6 +402,13 @@ func (m *MemSSA) transfer(in ssa.Instruction, cur map[string]*MemVer) {
 					}
 					if related(e, k2) {
 						hit = true
+					}
+				}
+				if !strings.HasPrefix(k2, "A:") {
+					for _, t := range effElem {
+						if types.Identical(m.keyType[k2], t) {
+							hit = true
+						}
 					}
 				}
 				if hit {
